@@ -403,6 +403,37 @@ def run(ctx):
                 ctx.prove("C11.state", c.ident, loc_of(mu), f"self.{a} is saved by _checkpoint_extra_state and restored on resume", disc=f"self.{a}")
     ctx.floor("concrete SMC sampler classes", n_cls, 3)
 
+    # ---- same arguments, same derived options: apart from the restored state itself, everything sample() derives before
+    # the loop (flags, step sizes, cadence, callbacks) must be the same function of the arguments on the fresh and on the resumed path
+    lpf_ = sf_fresh.loop
+    if lpf_ is not None and lpr is not None:
+        Rr = roles(repo)
+        allowed_locals = {Rr.beta, Rr.iterations, Rr.samples, Rr.min_step} | ({Rr.guard} if Rr.guard else set())
+        pf_, pr_ = lpf_["pre"], lpr["pre"]
+        diff_l = sorted(k for k in set(pf_) & set(pr_) if pf_[k] != pr_[k] and k not in allowed_locals)
+        hf_ = {a: v for (o, a), v in sf_fresh.ev.heap.items() if o == SELF}
+        hr_ = {a: v for (o, a), v in sf_res.ev.heap.items() if o == SELF}
+        restored_attrs = set()
+        for c_ in [smc]:
+            for nm_ in ("restore_from_checkpoint", "_restore_extra_state"):
+                rf_ = c_.resolve(nm_)
+                if rf_ is not None:
+                    restored_attrs |= _self_writes(rf_)
+        base_rf = base.resolve("restore_from_checkpoint")
+        if base_rf is not None:
+            restored_attrs |= _self_writes(base_rf)
+        diff_a = sorted(k for k in set(hf_) | set(hr_) if hf_.get(k) != hr_.get(k) and k not in restored_attrs and k not in EXEMPT_ATTRS and k != "history")
+        why_ = ""
+        if diff_a or diff_l:
+            nm_ = ("self." + diff_a[0]) if diff_a else diff_l[0]
+            vf_ = hf_.get(diff_a[0]) if diff_a else pf_.get(diff_l[0])
+            vr_ = hr_.get(diff_a[0]) if diff_a else pr_.get(diff_l[0])
+            why_ = (f"with the same arguments a resumed run enters the loop with different {nm_}: fresh {T.show(vf_)[:90] if vf_ else None} vs resumed {T.show(vr_)[:90] if vr_ else None} "
+                    "-- the resumed run does not continue the schedule of the uninterrupted one")
+        ctx.decide(not diff_l and not diff_a, "C11.state", sample.ident, loc_of(sample),
+                   "apart from the restored state, every option sample() derives before the loop is the same function of its arguments on the fresh and on the resumed path",
+                   why_, disc="same-options")
+
     # ---- restore must not bring back a container that sample() consumes destructively
     # (the copy in the checkpoint was taken after the pop: restoring it loses what was popped,
     # and overrides the options given to the resuming call)
@@ -728,6 +759,8 @@ MUTANTS += [
     M("generator state restored only when absent", _B, "if rng_state is not None and hasattr(self.rng, \"bit_generator\"):", "if rng_state is None and hasattr(self.rng, \"bit_generator\"):", "C11.restore"),
     M("extras not merged into the payload", "src/aspire/samplers/base.py", "base_state.update(self._checkpoint_extra_state())\n", "", "C11.keys"),
     M("minipcn sampler drops resume_from", "src/aspire/samplers/smc/minipcn.py", "resume_from=resume_from,\n", "", "C11.src"),
+    M("resumed run stops rescaling the minimum step", _B, "                if resumed and self._restored_min_step is not None:\n                    # The adaptive minimum step is rescaled at every\n                    # iteration, so continue from the checkpointed value\n                    min_step = self._restored_min_step\n", "",
+      "C11.state", more=[("samples, beta, iterations = self.restore_from_checkpoint(\n                resume_from\n            )", "samples, beta, iterations = self.restore_from_checkpoint(\n                resume_from\n            )\n            if min_step is None:\n                min_step = self._restored_min_step")]),
     M("kernel options restored from the checkpoint", _B, "def restore_from_checkpoint(\n        self, source: str | bytes | dict\n    ) -> tuple[SMCSamples, float, int]:",
       "def _restore_extra_state(self, state: dict) -> None:\n        sampler_kwargs = state.get(\"sampler_kwargs\")\n        if sampler_kwargs is not None:\n            self.sampler_kwargs = dict(sampler_kwargs)\n\n    def restore_from_checkpoint(\n        self, source: str | bytes | dict\n    ) -> tuple[SMCSamples, float, int]:", "C11.state"),
     M("bytes checkpoints treated as paths", "src/aspire/samplers/base.py", "if isinstance(source, str):\n            state = self.load_checkpoint_from_file(source)\n        elif isinstance(source, bytes):\n            state = pickle.loads(source)",
